@@ -306,22 +306,23 @@ Proof. vm_compute. reflexivity. Qed.
    Outside: Div and ScalarFloat (reals: the VM model is generic in the float instance, RefSem uses
    SpecFloat), every other card kind, locals, control flow, calls (fragments F2, F3: not proved).
 
-   Hypotheses, all decidable: the program is in F1; no two global names of the program share their
-   32-bit handle (the VM and the compiled program know a global by the FNV handle of its name, the
-   language by its name: with a collision the two sides differ - handles_inj); every expression
+   Hypotheses, all decidable: the program is in F1; every expression
    fits the value stack (depth_ok: nesting depth + 1 < 256, otherwise the VM reports Stackoverflow:
    the resource side of compile_correct); the compiler returned a program B with fewer than 2^32
    variable ids (next_var is a wrapping u32); the budget covers one dispatch per instruction of
    main, Exit included, plus the one the loop keeps in reserve (needed_f1).
    Conclusion: same outcome kind, and the host reads the same globals by name - for every name
-   that does not collide with a name of the program (no_collision), assigned or not. *)
+   that does not collide with a name of the program (no_collision), assigned or not.  (The VM and the
+   compiled program know a global by the 32-bit FNV handle of its name, the language by its name.
+   Since ce07816 the compiler refuses a program in which two global names share their handle -
+   Compiler.name_checked - so `compile M = COk B` implies that the names of the program are
+   collision-free; the earlier hypothesis handles_inj is now derived, C01SimComp.named_inj.) *)
 From Cao Require C01SimDefs C01SimF1 Compiler CompilerProofs Vm C15Link.
 
 Theorem C01_compile_correct_f1 :
   forall (F : Vm.fops) (bld : Vm.build) (M : module) (B : Compiler.compiled) (fuel : nat) (host : list str)
          (o : obs) (budget : nat),
     C01SimDefs.in_f1 M = true ->
-    C01SimDefs.handles_inj (C01SimDefs.main_names (C01SimDefs.main_cards M)) = true ->
     C01SimDefs.depth_ok (C01SimDefs.main_cards M) = true ->
     Compiler.compile M CompilerProofs.default_options = Compiler.COk B ->
     (N.of_nat (List.length (Compiler.p_ids B)) < Bits.two32)%N ->
@@ -403,7 +404,6 @@ Theorem C01_compile_correct_f2 :
   forall (F : Vm.fops) (bld : Vm.build) (M : module) (B : Compiler.compiled) (fuel : nat) (host : list str)
          (o : obs) (budget : nat),
     C01SimDefs2.in_f2 M = true ->
-    C01SimDefs.handles_inj (C01SimDefs2.main_names2 (C01SimDefs.main_cards M)) = true ->
     C01SimDefs2.depth_ok2 (C01SimDefs.main_cards M) = true ->
     Compiler.compile M CompilerProofs.default_options = Compiler.COk B ->
     (N.of_nat (List.length (Compiler.p_ids B)) < Bits.two32)%N ->
@@ -460,7 +460,6 @@ From Cao Require C01SimDefs3 C01SimF3.
 Theorem C01_compile_correct_f3 :
   forall (F : Vm.fops) (bld : Vm.build) (M : module) (B : Compiler.compiled) (fuel : nat) (host : list str) (o : obs),
     C01SimDefs3.in_f3 M = true ->
-    C01SimDefs.handles_inj (C01SimDefs3.main_names3 (C01SimDefs.main_cards M)) = true ->
     C01SimDefs3.depth_ok3 (C01SimDefs.main_cards M) = true ->
     Compiler.compile M CompilerProofs.default_options = Compiler.COk B ->
     (N.of_nat (List.length (Compiler.p_ids B)) < Bits.two32)%N ->
@@ -532,7 +531,6 @@ From Cao Require C01SimDefs4 C01SimF4.
 Theorem C01_compile_correct_f4 :
   forall (F : Vm.fops) (bld : Vm.build) (M : module) (B : Compiler.compiled) (fuel : nat) (host : list str) (o : obs),
     C01SimDefs4.in_f4 M = true ->
-    C01SimDefs.handles_inj (C01SimDefs4.main_names4 (C01SimDefs.main_cards M)) = true ->
     C01SimDefs4.depth_ok4 (C01SimDefs.main_cards M) = true ->
     Compiler.compile M CompilerProofs.default_options = Compiler.COk B ->
     (N.of_nat (List.length (Compiler.p_ids B)) < Bits.two32)%N ->
